@@ -40,6 +40,7 @@ def _body(rng, tk: Tokens, exp: Expect, unit: int, feature, twin, xhtml: bool, t
     """Random block sequence; returns html string.  Table cell tokens go to exp.text or exp.table_only."""
     br = "<br/>" if xhtml else "<br>"
     out = []
+    hr_rng = random.Random(f"html-hr:{rng.getstate()[1][:4]}:{unit}")      # (a stream of its own, different per document, that leaves the main stream alone)
 
     def w(cls, lo=1, hi=3, heading=False):
         return [exp.text(tk.new(cls), unit, heading) for _ in range(rng.randint(lo, hi))]
@@ -99,7 +100,11 @@ def _body(rng, tk: Tokens, exp: Expect, unit: int, feature, twin, xhtml: bool, t
                     inner = f"{' '.join(t)}{br}{' '.join(t2)}" if not twin else f"{' '.join(t)} {' '.join(t2)}"
                     t = t + t2
                 if nested is not None and i == 0 and j == 0:
+                    # the cell goes on after the nested table: its own words before AND after it
                     inner += nested()
+                    tail = cellw(1, 1)
+                    inner += " " + " ".join(tail)
+                    t = t + tail
                 tds.append(f"<{tag}>{inner}</{tag}>")
                 grow.append({"toks": t})
             trs.append(f"<tr>{''.join(tds)}</tr>")
@@ -126,6 +131,10 @@ def _body(rng, tk: Tokens, exp: Expect, unit: int, feature, twin, xhtml: bool, t
             r = exp.out(tk.new("r"))
             out.append(f"<!-- {r} -->")
             out.append(f"<div>{' '.join(w('v', 1, 2))}</div>")
+            if hr_rng.random() < 0.5:
+                # running text directly before and after a rule, in one parent (a footer: <hr>Contact ...)
+                hr = "<hr/>" if xhtml else hr_rng.choice(["<hr>", "<hr/>", '<hr class="x">'])
+                out.append(f"<div>{' '.join(w('b', 1, 2))}{hr}{' '.join(w('b', 1, 2))} <b>{' '.join(w('b', 1, 1))}</b></div>")
         else:
             r1, r2 = exp.out(tk.new("r")), exp.out(tk.new("r"))
             out.append(f'<script type="text/javascript">var a = "{r1}";</script><style>.{r2} {{color: red}}</style>')
@@ -224,9 +233,10 @@ def _html_doc(seed, feature, twin, fmt):
             '<meta name="generator" content="verif"><meta   http-equiv=Content-Type   content="text/html; charset={cs}" >',
             '<meta id="m1" content="text/html;  charset={cs}" http-equiv="content-type" />',
         ]).format(cs=charset.upper() if crng.random() < 0.3 else charset)
-    html = (f'<!DOCTYPE html><html lang="en"><head>{decl}<title>{escape(meta["title"])}</title>'
+    head_open, head_close = ("", "") if (feature == "no-head-tags" and not twin) else ("<head>", "</head>")
+    html = (f'<!DOCTYPE html><html lang="en">{head_open}{decl}<title>{escape(meta["title"])}</title>'
             f'<meta name="author" content="{escape(meta["author"], {chr(34): "&quot;"})}"><meta name="keywords" content="{meta["keywords"]}">'
-            f'<meta name="description" content="{escape(meta["description"], {chr(34): "&quot;"})}"></head><body>{body}{tail}')
+            f'<meta name="description" content="{escape(meta["description"], {chr(34): "&quot;"})}">{head_close}<body>{body}{tail}')
     return html.encode("iso-8859-1" if charset.lower() == "iso-8859-1" else ("iso-8859-15" if charset.lower() == "iso-8859-15" else ("cp1252" if charset != "utf-8" else "utf-8"))), exp
 
 
@@ -337,6 +347,7 @@ def build_epub(seed, feature=None, twin=False):
 
 
 HTML_ONLY_FEATURES = dict(HTML_FEATURES, **{
+    "no-head-tags": "the optional <head> start and end tags are left out (title and meta elements directly after <html>) (twin: with the tags)",
     "legacy-charset-declared": "a page in windows-1252 / ISO-8859-1 with non-ASCII letters in title, author and description, the charset declared by a meta tag in one of the "
                                "legal forms (unquoted charset attribute, http-equiv first or content first, upper case, single quotes, after other meta tags) (twin: the same form declaring utf-8)",
 })
